@@ -12,13 +12,13 @@
 (* "same mapping as applying the buffers in order" are all checked by equality. *)
 EXTENDS TraceBase, IxBufOps, OrdMapOps
 
-VARIABLES l, K, emptyKey, bufs, its
+VARIABLES l, K, emptyKey, PG, SF, bufs, its
 
-tvars == <<l, K, emptyKey, bufs, its>>
+tvars == <<l, K, emptyKey, PG, SF, bufs, its>>
 
 Ev == Log[l]
 
-TraceInit == HWInit /\ l = 1 /\ K = 0 /\ emptyKey = 0 /\ bufs = <<>> /\ its = <<>>
+TraceInit == HWInit /\ l = 1 /\ K = 0 /\ emptyKey = 0 /\ PG = <<>> /\ SF = <<>> /\ bufs = <<>> /\ its = <<>>
 
 IsEvent(e) == l <= NLog /\ Ev.e = e /\ l' = l + 1
 
@@ -27,22 +27,23 @@ IsEvent(e) == l <= NLog /\ Ev.e = e /\ l' = l + 1
 Holds(b) == b = TRUE
 
 NoBuf == <<>>
-NoIt == [b |-> 0, c |-> CurRew, org |-> 0, end |-> 0]
+NoIt == [b |-> 0, c |-> CurRew, org |-> 0, end |-> 0, sk |-> <<>>]
 GrowTo(s, n, fill) == [i \in 1..(IF n > Len(s) THEN n ELSE Len(s)) |-> IF i <= Len(s) THEN s[i] ELSE fill]
 IsBuf(b) == b \in 1..Len(bufs) /\ bufs[b] # NoBuf
 
 TrReset == /\ IsEvent("Reset")
-           /\ K' = 0 /\ emptyKey' = 0 /\ bufs' = <<>> /\ its' = <<>>
+           /\ K' = 0 /\ emptyKey' = 0 /\ PG' = <<>> /\ SF' = <<>> /\ bufs' = <<>> /\ its' = <<>>
 
-\* scenario start: universe size; emptykey = 1 when rank 1 is the empty string
+\* scenario start: universe size; emptykey = 1 when rank 1 is the empty string; for composite
+\* keys the prefix / suffix rank of every key (skip-scan), else empty
 TrScn == /\ IsEvent("Scn")
-         /\ K' = Ev.K /\ emptyKey' = Ev.emptykey /\ bufs' = <<>> /\ its' = <<>>
+         /\ K' = Ev.K /\ emptyKey' = Ev.emptykey /\ PG' = Ev.pg /\ SF' = Ev.sf /\ bufs' = <<>> /\ its' = <<>>
 
 \* b = &ixbuf.T{}
 TrNew == /\ IsEvent("New")
          /\ Ev.b >= 1
          /\ bufs' = [GrowTo(bufs, Ev.b, NoBuf) EXCEPT ![Ev.b] = EmptyBuf(K)]
-         /\ UNCHANGED <<K, emptyKey, its>>
+         /\ UNCHANGED <<K, emptyKey, PG, SF, its>>
 
 \* a sequence of Insert / Update / Delete calls on buffer b (ks[i], ops[i], offs[i]) with their
 \* returned old offsets; the driver only generates valid sequences (checked: harness error otherwise)
@@ -54,7 +55,7 @@ TrFill ==
         /\ Assert(BFillValid(bufs[Ev.b], Ev.ks, cs, 1), "harness error: invalid change sequence generated")
         /\ Holds(Ev.olds = BFillOlds(bufs[Ev.b], Ev.ks, cs, 1))
         /\ bufs' = [bufs EXCEPT ![Ev.b] = BFill(@, Ev.ks, cs, 1)]
-    /\ UNCHANGED <<K, emptyKey, its>>
+    /\ UNCHANGED <<K, emptyKey, PG, SF, its>>
 
 \* out = ixbuf.Merge(ins...)
 TrMerge ==
@@ -65,7 +66,7 @@ TrMerge ==
     /\ LET m == MergeSeq([i \in 1..Len(Ev.ins) |-> bufs[Ev.ins[i]]], FALSE) IN
         /\ Assert(~HasInvalid(m), "harness error: buffers merged in an invalid order")
         /\ bufs' = [GrowTo(bufs, Ev.out, NoBuf) EXCEPT ![Ev.out] = m]
-    /\ UNCHANGED <<K, emptyKey, its>>
+    /\ UNCHANGED <<K, emptyKey, PG, SF, its>>
 
 \* Check() reports a (false) duplicate when the buffer contains the empty key, because its
 \* "previous key" starts as "": observed, not part of C11, tolerated exactly in that case
@@ -82,7 +83,7 @@ TrContent ==
               /\ Ev.offs = EntOffs(b, Ev.ks)
               /\ Ev.len = Len(Ev.ks)
               /\ CheckOK(b, Ev.chk))
-    /\ UNCHANGED <<K, emptyKey, bufs, its>>
+    /\ UNCHANGED <<K, emptyKey, PG, SF, bufs, its>>
 
 \* Lookup(key): the entry (tag + offset) or nothing
 TrLookup ==
@@ -90,7 +91,7 @@ TrLookup ==
     /\ Ev.ok = 1
     /\ IsBuf(Ev.b) /\ Ev.k \in 1..K
     /\ bufs[Ev.b][Ev.k] = Ch(Ev.op, Ev.off)
-    /\ UNCHANGED <<K, emptyKey, bufs, its>>
+    /\ UNCHANGED <<K, emptyKey, PG, SF, bufs, its>>
 
 \* RangeActivity(org, end): number of entries with org <= key < end
 TrRangeAct ==
@@ -98,13 +99,13 @@ TrRangeAct ==
     /\ Ev.ok = 1
     /\ IsBuf(Ev.b)
     /\ Ev.n = Cardinality({k \in 1..K : bufs[Ev.b][k].op # "none" /\ Ev.org <= k /\ k < Ev.end})
-    /\ UNCHANGED <<K, emptyKey, bufs, its>>
+    /\ UNCHANGED <<K, emptyKey, PG, SF, bufs, its>>
 
 TrItNew ==
     /\ IsEvent("ItNew")
     /\ IsBuf(Ev.b) /\ Ev.it >= 1
-    /\ its' = [GrowTo(its, Ev.it, NoIt) EXCEPT ![Ev.it] = [b |-> Ev.b, c |-> CurRew, org |-> 0, end |-> K + 1]]
-    /\ UNCHANGED <<K, emptyKey, bufs>>
+    /\ its' = [GrowTo(its, Ev.it, NoIt) EXCEPT ![Ev.it] = [b |-> Ev.b, c |-> CurRew, org |-> 0, end |-> K + 1, sk |-> <<>>]]
+    /\ UNCHANGED <<K, emptyKey, PG, SF, bufs>>
 
 \* iterator call on an unmodified buffer: same contract as the btree iterator (OrdMapOps cursor);
 \* Cur() = key rank + entry (tag, offset)
@@ -115,24 +116,28 @@ TrItOp ==
     /\ LET i == its[Ev.it]
            bb == bufs[i.b]
            mm == Presence(bb)
-           c2 == CASE Ev.op = "next"   -> CNext(mm, i.c, i.org, i.end)
-                   [] Ev.op = "prev"   -> CPrev(mm, i.c, i.org, i.end)
-                   [] Ev.op = "seek"   -> CSeek(mm, Ev.k, i.org, i.end)
+           skip == i.sk # <<>>
+           vis == Visible(mm, PG, SF, i.sk)
+           c2 == CASE Ev.op = "next"   -> IF skip THEN VNext(vis, i.c) ELSE CNext(mm, i.c, i.org, i.end)
+                   [] Ev.op = "prev"   -> IF skip THEN VPrev(vis, i.c, K + 1) ELSE CPrev(mm, i.c, i.org, i.end)
+                   [] Ev.op = "seek"   -> IF skip THEN VSeek(vis, Ev.k, K + 1) ELSE CSeek(mm, Ev.k, i.org, i.end)
                    [] Ev.op = "rewind" -> CurRew
                    [] Ev.op = "range"  -> CurRew
-           i2 == IF Ev.op = "range" THEN [i EXCEPT !.c = c2, !.org = Ev.k, !.end = Ev.k2]
-                 ELSE [i EXCEPT !.c = c2] IN
-        /\ Holds(/\ Ev.op \in {"next", "prev", "seek", "rewind", "range"}
+                   [] Ev.op = "skip"   -> CurRew
+           i2 == CASE Ev.op = "range" -> [i EXCEPT !.c = c2, !.org = Ev.k, !.end = Ev.k2, !.sk = <<>>]
+                   [] Ev.op = "skip"  -> [i EXCEPT !.c = c2, !.sk = <<Ev.k, Ev.k2, Ev.k3, Ev.k4>>]
+                   [] OTHER -> [i EXCEPT !.c = c2] IN
+        /\ Holds(/\ Ev.op \in {"next", "prev", "seek", "rewind", "range", "skip"}
                  /\ c2.st = "in"  => Ev.res = c2.cur /\ Ch(Ev.tag, Ev.off) = bb[c2.cur] /\ Ev.eof = 0
                  /\ c2.st = "eof" => Ev.res = 0 /\ Ev.off = 0 /\ Ev.eof = 1
                  /\ c2.st = "rew" => Ev.eof = 0
-                 /\ Ev.op = "next" => NextMeaning(mm, i.c, c2, i.org, i.end)
-                 /\ Ev.op = "prev" => PrevMeaning(mm, i.c, c2, i.org, i.end)
-                 /\ Ev.op = "seek" => SeekMeaning(mm, Ev.k, c2, i.org, i.end))
+                 /\ (Ev.op = "next" /\ ~skip) => NextMeaning(mm, i.c, c2, i.org, i.end)
+                 /\ (Ev.op = "prev" /\ ~skip) => PrevMeaning(mm, i.c, c2, i.org, i.end)
+                 /\ (Ev.op = "seek" /\ ~skip) => SeekMeaning(mm, Ev.k, c2, i.org, i.end))
         /\ its' = [its EXCEPT ![Ev.it] = i2]
-    /\ UNCHANGED <<K, emptyKey, bufs>>
+    /\ UNCHANGED <<K, emptyKey, PG, SF, bufs>>
 
-TrNote == /\ IsEvent("Note") /\ UNCHANGED <<K, emptyKey, bufs, its>>
+TrNote == /\ IsEvent("Note") /\ UNCHANGED <<K, emptyKey, PG, SF, bufs, its>>
 
 TraceNext == TrReset \/ TrScn \/ TrNew \/ TrFill \/ TrMerge \/ TrContent \/ TrLookup \/ TrRangeAct
              \/ TrItNew \/ TrItOp \/ TrNote
